@@ -65,6 +65,8 @@ def env_for(run_seed: int, label: str, rnd: random.Random, default: bool = False
         "ls_seed": core.derive(run_seed, label, "ls") if rnd.random() < 0.8 else None,
         # "another machine": ASCII default text encoding (no UTF-8 mode, no C-locale coercion)
         "locale": "C" if rnd.random() < 0.25 else None,
+        # clock skew / jump between runs (seconds): another day, another year, the past
+        "clock_offset": rnd.choice([0, 0, 86400 * 3, 86400 * 400, -86400 * 30, 3600 * 11]),
     }
 
 
@@ -91,6 +93,7 @@ def run_generator(
         "log": str(log),
         "uuid_seed": env.get("uuid_seed"),
         "ls_seed": env.get("ls_seed"),
+        "clock_offset": env.get("clock_offset") or 0,
         "fault": fault,
     }))
     e = {k_: v for k_, v in os.environ.items() if not k_.startswith(("PYTHON", "LSPV", "VERIF"))}
